@@ -444,6 +444,37 @@ def c28_minimise(seed, idx, hist, bad, w, d, budget_s):
     return h, b, sig_of(b)
 
 
+def minimise_els_schedule(work, sched, fails_with, w, d, max_tests=40):
+    """the seeded schedule as an explicit deviation list (who runs instead of the default choice,
+    which fault fires at which step), delta-debugged while `fails_with(extra_args)` stays true;
+    None when the explicit replay does not reproduce the failure"""
+    from common import ddmin
+    res = run_simels(work, w, d, sched)
+    devs = res.get("deviations")
+    if devs is None:
+        return None
+
+    def args_for(ds):
+        df = os.path.join(d, "devs.json")
+        with open(df, "w") as fh:
+            json.dump(ds, fh)
+        return ["--sched", "explicit", "--devs-in", df, "--est-len", "60000"]
+
+    if not fails_with(args_for(devs)):
+        return None
+    n0 = len(devs)
+    devs = ddmin(devs, lambda sub: fails_with(args_for(sub)), max_tests=max_tests)
+    log(f"      schedule: {n0} deviations -> {len(devs)}")
+    return devs
+
+
+def explicit_args(devs, d):
+    df = os.path.join(d, "devs_replay.json")
+    with open(df, "w") as fh:
+        json.dump(devs, fh)
+    return ["--sched", "explicit", "--devs-in", df, "--est-len", "60000"]
+
+
 def c28_match_known(hist, sig, bad, known):
     for e in known:
         m = e.get("match", {})
@@ -475,7 +506,8 @@ def run_c28(tier, seed, replay=None):
         try:
             def go(_, w, d):
                 work = build_c28(rp["workload"])
-                res = run_simels(work, w, d, rp["schedule"])
+                sched = explicit_args(rp["deviations"], d) if rp.get("deviations") is not None else rp["schedule"]
+                res = run_simels(work, w, d, sched)
                 return c28_judge(work, res)
             bad = pool.map(go, [0])[0]
         finally:
@@ -503,13 +535,22 @@ def run_c28(tier, seed, replay=None):
 
         def mini(r, w, d):
             h, b, sig = c28_minimise(seed, r["idx"], r["hist"], r["bad"], w, d, 80 if tier == "quick" else 200)
-            return {"idx": r["idx"], "hist": h, "bad": b, "sig": sig}
+            work = build_c28(h)
+
+            def fails_with(extra):
+                bb = c28_judge(work, run_simels(work, w, d, extra))
+                return bool(bb) and bool(set(sig_of(bb)) & set(sig))
+            devs = minimise_els_schedule(work, sched_args(seed, "C28", r["idx"]), fails_with, w, d)
+            return {"idx": r["idx"], "hist": h, "bad": b, "sig": sig, "deviations": devs}
         minis = pool.map(mini, failing[:48])
         seen = set()
         for m in minis:
             e = c28_match_known(m["hist"], m["sig"], m["bad"], known)
             if e:
-                report.known(e)
+                report.known(e, replay={"engine": "simels", "verif_seed": seed, "history_index": m["idx"],
+                                        "workload": m["hist"], "schedule": sched_args(seed, "C28", m["idx"]),
+                                        "deviations": m.get("deviations"),
+                                        "expect": {"clauses": m["sig"], "first": m["bad"][0]}})
                 continue
             key = (tuple(m["sig"]), sha(m["hist"]["events"]))
             if key in seen:
@@ -517,6 +558,7 @@ def run_c28(tier, seed, replay=None):
             seen.add(key)
             path = write_replay("C28", {"engine": "simels", "verif_seed": seed, "history_index": m["idx"],
                                         "workload": m["hist"], "schedule": sched_args(seed, "C28", m["idx"]),
+                                        "deviations": m.get("deviations"),
                                         "expect": {"clauses": m["sig"], "first": m["bad"][0]}})
             report.violation(f'clauses={m["sig"]} first={json.dumps(m["bad"][0])[:400]}', path)
         for r in failing[48:]:
@@ -969,8 +1011,9 @@ def run_c29(tier, seed, replay=None):
             rp = json.load(fh)
         pool = Pool("c29", workers=1)
         try:
-            bad = pool.map(lambda _, w, d: c29_fails(rp["verif_seed"], rp["history_index"], rp["workload"], w, d,
-                                                     rp["expect"]["clauses"])[1], [0])[0]
+            bad = pool.map(lambda _, w, d: c29_fails(
+                rp["verif_seed"], rp["history_index"], rp["workload"], w, d, rp["expect"]["clauses"],
+                sched=(explicit_args(rp["deviations"], d) if rp.get("deviations") is not None else None))[1], [0])[0]
         finally:
             pool.close()
         if bad and {x.split(":")[0] for x in sig_of(bad)} & {x.split(":")[0] for x in rp["expect"]["clauses"]}:
@@ -998,7 +1041,13 @@ def run_c29(tier, seed, replay=None):
             h, b, sig = c29_minimise(seed, r["idx"], r["hist"], r["bad"], w, d, 60 if tier == "quick" else 150)
             # does it need preemption? the same history under the default (never preempt) schedule
             under_default, _ = c29_fails(seed, r["idx"], h, w, d, sig, sched=["--sched", "default"])
-            return {"idx": r["idx"], "hist": h, "bad": b, "sig": sig, "only_under_preemption": not under_default}
+            devs = None
+            if not under_default:
+                devs = minimise_els_schedule(build_c29(h), sched_args(seed, "C29", r["idx"]),
+                                             lambda extra: c29_fails(seed, r["idx"], h, w, d, sig, sched=extra)[0], w, d,
+                                             max_tests=30)
+            return {"idx": r["idx"], "hist": h, "bad": b, "sig": sig, "only_under_preemption": not under_default,
+                    "deviations": devs}
         minis = pool.map(mini, failing[:48])
         seen = set()
         for m in minis:
@@ -1007,7 +1056,10 @@ def run_c29(tier, seed, replay=None):
             m["hist"]["recheck_skipped"] = all(b_.get("recheck_skipped") for b_ in m["bad"])
             e = c29_match_known(m["hist"], m["sig"], m["bad"], known)
             if e:
-                report.known(e)
+                report.known(e, replay={"engine": "simels", "verif_seed": seed, "history_index": m["idx"],
+                                        "workload": m["hist"], "schedule": sched_args(seed, "C29", m["idx"]),
+                                        "deviations": m.get("deviations"),
+                                        "expect": {"clauses": m["sig"], "first": m["bad"][0]}})
                 continue
             key = (tuple(m["sig"]), sha(m["hist"]["events"]))
             if key in seen:
@@ -1015,6 +1067,7 @@ def run_c29(tier, seed, replay=None):
             seen.add(key)
             path = write_replay("C29", {"engine": "simels", "verif_seed": seed, "history_index": m["idx"],
                                         "workload": m["hist"], "schedule": sched_args(seed, "C29", m["idx"]),
+                                        "deviations": m.get("deviations"),
                                         "expect": {"clauses": m["sig"], "first": m["bad"][0]}})
             report.violation(f'clauses={m["sig"]} preds={c29_predicates(m["hist"])} first={json.dumps(m["bad"][0])[:500]}', path)
         for r in failing[48:]:
